@@ -349,7 +349,7 @@ func (s *Sim) root() {
 	if len(fineOn) > 0 {
 		s.count("fine.runs")
 	}
-	installFineHooks(s.sched, fineOn, s.countLocked)
+	installFineHooks(s.sched, fineOn, s.in.Cfg.FineHeld, s.countLocked)
 	defer uninstallFineHooks()
 	verifhook.Dead = func(ctx context.Context) bool {
 		t := taskFrom(ctx)
